@@ -173,6 +173,46 @@ def run(ctx, run):
     run.floor("frame reads through a client cursor", counts["frame"], 2)
     run.floor("client list accesses analysed", counts["clist"], 4)
 
+    _pairing_and_order(ctx, run, res)
+
+    _stop_before_free(ctx, run, P.need("vbi_proxy_stop_acquisition", UNIT))
+    _send_sliced(ctx, run, P.need("vbi_proxyd_send_sliced", UNIT))
+    _release(ctx, run, P.need("vbi_proxy_queue_release_sliced", UNIT))
+    _forward(ctx, run, P.need("vbi_proxyd_forward_data", UNIT))
+    _update_services(ctx, run, P.need("vbi_proxyd_update_services", UNIT))
+    _close(ctx, run, P.need("vbi_proxyd_close", UNIT))
+    # a service update of a forwarding client may stop acquisition, which frees the whole queue:
+    # the client's cursor must have been drained before (shared with C19)
+    from . import C19
+    C19._drain_before_update(ctx, run, P.need("vbi_proxyd_take_message", UNIT))
+    _client_transient_states(ctx, run)
+    _publish_only_frames(ctx, run, P.need("vbi_proxyd_forward_data", UNIT))
+    _accepted_socket_nonblocking(ctx, run)
+    _count_follows_list(ctx, run)
+    _byte_offsets_on_byte_pointers(ctx, run)
+    from .. import sweep
+    sweep.run(ctx, run, ["src/proxy-client.c"], {}, 10)
+
+
+def _lock_analysis(ctx):
+    P = ctx.prog
+    main = P.need("vbi_proxyd_main_loop", UNIT)
+    acq = P.need("vbi_proxyd_acq_thread", UNIT)
+
+    def is_prot(f):
+        return f.unit == UNIT and (bool(_accesses(f, Q_FIELDS | C_FIELDS)) or bool(_frame_reads(f)))
+    return locks.analyse(ctx, [main, acq], is_prot, track={Q_MUTEX, C_MUTEX})
+
+
+def lock_discipline(ctx, run):
+    """Pairing and order only (shared with C19: a mutex taken twice or kept at a return stops the
+    daemon for every client)."""
+    _pairing_and_order(ctx, run, _lock_analysis(ctx))
+
+
+def _pairing_and_order(ctx, run, res):
+    P = ctx.prog
+    spec = res.spec
     # pairing and order
     seen = set()
     for f, eid, msg, kind in spec.errors:
@@ -212,23 +252,7 @@ def run(ctx, run):
         run.holds("RF-LOCK", "RF-LOCK:order", "lock order edges: %s" % (", ".join("%s->%s" % (a.split(".")[-1], b.split(".")[-1])
                                                                                     for a, b in sorted(spec.order)) or "none"), None)
 
-    _stop_before_free(ctx, run, P.need("vbi_proxy_stop_acquisition", UNIT))
-    _send_sliced(ctx, run, P.need("vbi_proxyd_send_sliced", UNIT))
-    _release(ctx, run, P.need("vbi_proxy_queue_release_sliced", UNIT))
-    _forward(ctx, run, P.need("vbi_proxyd_forward_data", UNIT))
-    _update_services(ctx, run, P.need("vbi_proxyd_update_services", UNIT))
-    _close(ctx, run, P.need("vbi_proxyd_close", UNIT))
-    # a service update of a forwarding client may stop acquisition, which frees the whole queue:
-    # the client's cursor must have been drained before (shared with C19)
-    from . import C19
-    C19._drain_before_update(ctx, run, P.need("vbi_proxyd_take_message", UNIT))
-    _client_transient_states(ctx, run)
-    _publish_only_frames(ctx, run, P.need("vbi_proxyd_forward_data", UNIT))
-    _accepted_socket_nonblocking(ctx, run)
-    _count_follows_list(ctx, run)
-    _byte_offsets_on_byte_pointers(ctx, run)
-    from .. import sweep
-    sweep.run(ctx, run, ["src/proxy-client.c"], {}, 10)
+
 
 def _stop_before_free(ctx, run, f):
     """The exemption of vbi_proxy_stop_acquisition rests on this order."""
